@@ -619,6 +619,26 @@ def main(argv=None):
               file=sys.stderr)
         return EXIT_HARNESS
     pid = argv[0].upper()
+    # scratch directories of worker processes carry this tag: workers of a fork pool end without running exit
+    # handlers, so the main process sweeps what they leave behind
+    tag = os.environ.setdefault('PELVERIF_RUN_TAG', str(os.getpid()))
+    try:
+        return _main(argv, pid)
+    finally:
+        if tag == str(os.getpid()):
+            _sweep_scratch(tag)
+
+
+def _sweep_scratch(tag):
+    import glob
+    import shutil
+    import tempfile
+    for base in {'/dev/shm', tempfile.gettempdir()}:
+        for d in glob.glob(os.path.join(base, 'pelverif_%s_*' % tag)):
+            shutil.rmtree(d, ignore_errors=True)
+
+
+def _main(argv, pid):
     try:
         repoenv.activate()
         from .props import load_property
